@@ -377,6 +377,8 @@ def histogram_keys(case, obs):
         keys.append('top-renamed-channel')
     if 'malformed' in case:
         keys.append('malformed:' + case['malformed'])
+    if case.get('final_triple'):
+        keys.append('table-final-triple')
     if 'fold' in case:
         keys.append('fold-stream')
         keys.append('fold:' + case['fold'].split('/')[1])
@@ -395,10 +397,170 @@ def _par_under_trafo(n, under=False):
 
 
 def classify(case, obs):
-    """known finding: a ParallelChannelPT node inside the body of a scalar-arithmetic / parallel-channel node"""
+    """known findings: a ParallelChannelPT node inside the body of a scalar-arithmetic / parallel-channel node; a table
+    with three entries at its final time (flag set by the generator) that is played time-reversed"""
     if 'samples' in obs and _par_under_trafo(case['pt']):
         return 'par-under-transformation'
+    if 'samples' in obs and case.get('final_triple') and 'rev' in G.node_kinds(case['pt']):
+        return 'table-final-triple'
     return None
+
+
+# ---------------------------------------------------------------------------------------------------------------------
+# search for a failing input near a disagreement / shrinking of a failing input.  Both use the specification oracle only
+# (implementation's observation + Spec.denote evaluated in Coq through check_spec, and py_spec); the operational model
+# is not consulted.
+def _spec_failures(cases, ctx, tag):
+    """(observations, indices on which the property fails); crashed / hung candidates never count"""
+    obs = []
+    for c in cases:
+        try:
+            obs.append(run_impl(c))
+        except Exception as e:
+            obs.append({'crash': '%s: %s' % (type(e).__name__, str(e)[:200])})
+    idx = [i for i, o in enumerate(obs) if 'crash' not in o and 'hang' not in o]
+    if not idx:
+        return obs, []
+    terms = [to_coq(cases[i], obs[i]) for i in idx]
+    wd = os.path.join(ctx.get('workdir') or os.path.join(vlib.CASES, 'C01.search'), tag)
+    res = vlib.run_coq_cases(wd, CORR_IMPORTS, [CHECK_SPEC], terms, shard=SHARD)
+    bad = set(idx[j] for j in res[CHECK_SPEC])
+    bad |= set(i for i in idx if py_spec(cases[i], obs[i]))
+    return obs, sorted(bad)
+
+
+def _as_case(pt, like, keep_cm=False):
+    params = dict(like['params'])
+    for name in sorted(G.free_params(pt)):
+        params.setdefault(name, '1')
+    defined = G.pt_channels(pt)
+    cm = [[a, b] for a, b in like['cm'] if a in defined] if keep_cm else []
+    c = {'pt': pt, 'params': params, 'cm': cm}
+    for k in ('final_triple',):
+        if like.get(k):
+            c[k] = like[k]
+    return c
+
+
+def _positions(n, path=()):
+    yield path, n
+    for j, x in enumerate(n.get('subs', [])):
+        if n['k'] == 'seq':
+            yield from _positions(x, path + (('subs', j),))
+    if 'body' in n:
+        yield from _positions(n['body'], path + (('body',),))
+
+
+def _replace(n, path, new):
+    import copy
+    if not path:
+        return copy.deepcopy(new)
+    m = copy.deepcopy(n)
+    cur = m
+    for step in path[:-1]:
+        cur = cur[step[0]][step[1]] if len(step) == 2 else cur[step[0]]
+    last = path[-1]
+    if new is None:                      # delete a sequence member
+        del cur[last[0]][last[1]]
+    elif len(last) == 2:
+        cur[last[0]][last[1]] = copy.deepcopy(new)
+    else:
+        cur[last[0]] = copy.deepcopy(new)
+    return m
+
+
+def _smaller(case):
+    """structurally smaller variants: a sub-template on its own, a node replaced by its body, a sequence member removed,
+    a repetition count / loop range made trivial, the top-level channel mapping dropped"""
+    out = []
+    pt = case['pt']
+    for path, n in _positions(pt):
+        if path:
+            out.append(_as_case(n, case))
+        if 'body' in n and n['k'] in ('rep', 'rev', 'arith', 'map', 'for'):
+            out.append(_as_case(_replace(pt, path, n['body']), case, keep_cm=True))
+        if n['k'] == 'seq' and len(n['subs']) >= 2:
+            for j in range(len(n['subs'])):
+                out.append(_as_case(_replace(pt, path + (('subs', j),), None), case, keep_cm=True))
+        if n['k'] == 'rep' and n['n'] != G.C(1):
+            m = dict(n)
+            m['n'] = G.C(1)
+            out.append(_as_case(_replace(pt, path, m), case, keep_cm=True))
+        if n['k'] == 'for':
+            m = dict(n)
+            m['range'] = [G.C(0), G.C(1), G.C(1)]
+            out.append(_as_case(_replace(pt, path, m), case, keep_cm=True))
+    if case['cm']:
+        out.append(_as_case(pt, case))
+    seen, uniq = set(), []
+    for c in out:
+        h = vlib.canonical_hash(c)
+        if h not in seen and G.size(c['pt']) <= G.size(pt):
+            seen.add(h)
+            uniq.append(c)
+    return uniq
+
+
+def shrink(case, obs, ctx):
+    cur, cur_obs = case, obs
+    cls = classify(case, obs)
+    for rnd in range(5):
+        cands = [c for c in _smaller(cur) if vlib.canonical_hash(c) != vlib.canonical_hash(cur)][:80]
+        if not cands:
+            break
+        o, bad = _spec_failures(cands, ctx, 'shrink%d' % rnd)
+        bad = [i for i in bad if classify(cands[i], o[i]) == cls]
+        if not bad:
+            break
+        i = min(bad, key=lambda j: (G.size(cands[j]['pt']), len(cands[j]['cm'])))
+        if (G.size(cands[i]['pt']), len(cands[i]['cm'])) >= (G.size(cur['pt']), len(cur['cm'])):
+            break
+        cur, cur_obs = cands[i], o[i]
+    return cur, cur_obs
+
+
+def search_failing(ctx, broken):
+    """an input on which the PROPERTY fails (denotation oracle vs implementation), preferably near ctx['near']"""
+    import copy
+    rng = ctx['rng']
+    near = ctx.get('near')
+    cands = []
+    if near is not None and 'pt' in near:
+        cands += _smaller(near)[:60]
+        for wrap in ('rev', 'rep2', 'seq2', 'rep1'):
+            pt = copy.deepcopy(near['pt'])
+            pt = {'rev': {'k': 'rev', 'body': pt}, 'rep2': {'k': 'rep', 'n': G.C(2), 'body': pt},
+                  'rep1': {'k': 'rep', 'n': G.C(1), 'body': pt},
+                  'seq2': {'k': 'seq', 'subs': [pt, copy.deepcopy(pt)]}}[wrap]
+            cands.append(_as_case(pt, near, keep_cm=True))
+            # constant siblings of equal voltage around it (constant folding looks through the nesting)
+            chans = G.pt_channels(near['pt'])
+            if chans and wrap in ('rev', 'rep1'):
+                hold = {'k': 'const', 'd': G.C(1), 'amps': [[ch, G.C('1/2')] for ch in chans]}
+                cands.append(_as_case({'k': 'seq', 'subs': [hold, pt, copy.deepcopy(hold)]}, near, keep_cm=True))
+        for name in sorted(near['params']):
+            for val in ('0', '1', '2', '1/2', '-1', '3'):
+                if near['params'][name] != val:
+                    c = copy.deepcopy(near)
+                    c['params'][name] = val
+                    cands.append(c)
+        kinds = sorted(set(G.node_kinds(near['pt'])))
+        if any(k in G.ATOMS for k in kinds):
+            for _ in range(60):
+                cands.append(G.gen_case(rng, max_depth=4, kinds=kinds))
+    for _ in range(60):
+        cands.append(G.gen_case(rng, max_depth=4))
+    for _ in range(40):
+        cands.append(G.gen_fold_case(rng))
+    cands = cands[:320]
+    obs, bad = _spec_failures(cands, ctx, 'search')
+    known = vlib.load_known_findings()[0].get(PID, {})
+    bad = [i for i in bad if classify(cands[i], obs[i]) not in known]
+    if not bad:
+        return None
+    i = min(bad, key=lambda j: G.size(cands[j]['pt']))
+    c, o = shrink(cands[i], obs[i], ctx)
+    return c, o, py_spec(c, o) or 'the denotation oracle (check_spec) rejects what the implementation plays'
 
 
 MANIFEST = {
